@@ -101,9 +101,11 @@ static uint32_t XRead(uint32_t start, uint8_t *buf, uint32_t size)  { x_arm(); u
 static uint32_t XWrite(uint32_t start, uint8_t *buf, uint32_t size) { x_arm(); uint32_t n = W_IfDrv.Nvm->Write(start, buf, size); x_note(1, start, size, n); return n; }
 static const CO_IF_NVM_DRV XNvm = { XInit, XRead, XWrite };
 
+static int XFER;
 static void build_world(int cfg)
 {
     OdB b; int g, i, o;
+    XFER = mc_opt("xfer", 0);
     LY = &LAY[cfg]; NG = LY->n; NSUB = NG == 1 ? 1 : NG + 1; NEV = 4 * NSUB + NG + 2;
     w_regions_clear();
     w_reset(1000);
@@ -218,10 +220,38 @@ static int enabled(int g) { return (LY->g[g].value & CO_PARA___E) != 0; }
 
 enum { R_CONF, R_ABORT, R_ODD };
 static const char *RN[] = { "confirmed", "aborted", "no/odd response" };
+/* XFER, --opt xfer=1: the four signature bytes travel in a segmented download (initiate with size, one segment), xfer=2: in a block download
+                         (initiate, one segment, end) - the object is written when the last frame arrives, the frames before it must be confirmed */
+static int sdo_mid(uint8_t c0, uint8_t c1, uint8_t c2, uint8_t c3, uint8_t c4, uint8_t c5, uint8_t c6, uint8_t c7, uint8_t expect, uint8_t mask, uint32_t *code)
+{
+    w_rx8(&Node, 0x600 + NODE_ID, c0, c1, c2, c3, c4, c5, c6, c7);
+    if (OBS.ntx != 1 || OBS.tx[0].id != 0x580 + NODE_ID || OBS.tx[0].dlc != 8) return R_ODD;
+    if (OBS.tx[0].d[0] == 0x80) { *code = w_get32(OBS.tx[0].d + 4); return R_ABORT; }
+    if ((OBS.tx[0].d[0] & mask) != expect) return R_ODD;
+    w_obs_clear();
+    return R_CONF;
+}
 static int sdo_dl(uint16_t idx, int sub, uint8_t cmd, uint32_t val, uint32_t *code)
 {
     *code = 0;
     sub = PSUB(sub);
+    if (XFER && cmd == 0x23) {
+        uint8_t i0 = (uint8_t)idx, i1 = (uint8_t)(idx >> 8), v0 = (uint8_t)val, v1 = (uint8_t)(val >> 8), v2 = (uint8_t)(val >> 16), v3 = (uint8_t)(val >> 24); int r;
+        if (XFER == 1) {
+            r = sdo_mid(0x21, i0, i1, (uint8_t)sub, 4, 0, 0, 0, 0x60, 0xFF, code); if (r != R_CONF) return r;
+            w_rx8(&Node, 0x600 + NODE_ID, 0x07, v0, v1, v2, v3, 0x5A, 0x5A, 0x5A);
+            if (OBS.ntx != 1 || OBS.tx[0].id != 0x580 + NODE_ID || OBS.tx[0].dlc != 8) return R_ODD;
+            if (OBS.tx[0].d[0] == 0x20) return R_CONF;
+        } else {
+            r = sdo_mid(0xC2, i0, i1, (uint8_t)sub, 4, 0, 0, 0, 0xA0, 0xFB, code); if (r != R_CONF) return r;
+            r = sdo_mid(0x81, v0, v1, v2, v3, 0x5A, 0x5A, 0x5A, 0xA2, 0xFF, code); if (r != R_CONF) return r;
+            w_rx8(&Node, 0x600 + NODE_ID, 0xCD, 0, 0, 0, 0, 0, 0, 0);
+            if (OBS.ntx != 1 || OBS.tx[0].id != 0x580 + NODE_ID || OBS.tx[0].dlc != 8) return R_ODD;
+            if (OBS.tx[0].d[0] == 0xA1) return R_CONF;
+        }
+        if (OBS.tx[0].d[0] == 0x80 && OBS.tx[0].d[1] == i0 && OBS.tx[0].d[2] == i1 && OBS.tx[0].d[3] == (uint8_t)sub) { *code = w_get32(OBS.tx[0].d + 4); return R_ABORT; }
+        return R_ODD;
+    }
     w_rx8(&Node, 0x600 + NODE_ID, cmd, (uint8_t)idx, (uint8_t)(idx >> 8), (uint8_t)sub, (uint8_t)val, (uint8_t)(val >> 8), (uint8_t)(val >> 16), (uint8_t)(val >> 24));
     if (OBS.ntx != 1 || OBS.tx[0].id != 0x580 + NODE_ID || OBS.tx[0].dlc != 8) return R_ODD;
     const uint8_t *d = OBS.tx[0].d;
